@@ -303,6 +303,18 @@ def discharge_overflow(b, bb, t, m, outcomes):
                         return True, 'decrement of the loop counter _%d, which stays in [1, %d] (ranking rule C18.B1: %s)' % (ctr, info['init'], why[:120])
                     if ok and info['ctr'] == ctr:
                         return True, 'decrement of the loop counter _%d, which stays in [1, %d] (ranking rule C18.B1)' % (ctr, info['init'])
+    # (c) the increment of an up-counting loop counter bounded by its exit test (C18.B1, third shape)
+    from .C18 import up_counter_info
+    for s in b.blocks[bb]['stmts']:
+        if s['k'] == 'assign' and s['r']['k'] == 'bin' and s['r']['op'] == 'AddWithOverflow':
+            ctr = _src_local(b, bb, s['r']['l'])
+            for tail, head in b.back_edges():
+                if bb in b.natural_loop(tail, head):
+                    ok, why, info = up_counter_info(b, head, tail)
+                    tmax = {'u8': 255, 'u16': 65535, 'u32': (1 << 32) - 1, 'u64': (1 << 64) - 1, 'usize': (1 << 64) - 1,
+                            'i32': (1 << 31) - 1, 'i64': (1 << 63) - 1}.get(b.tystr(b.locals[ctr]['ty'])) if ctr is not None else None
+                    if ok and info['ctr'] == ctr and tmax is not None and info['bound'] - 1 + max(info['dec_by']) <= tmax:
+                        return True, 'increment of the loop counter _%d, which stays below %d inside the loop (ranking rule C18.B1)' % (ctr, info['bound'])
     return False, 'overflow check in %s not discharged by the interval domain or a dominating guard' % name
 
 
